@@ -117,6 +117,9 @@ func c01f(c *Ctx) {
 				if len(ws.argT) == 2 && ws.argT[1] == s.dest {
 					c.Check(ws.argT[0] == s.script, key+"/goto-prefix", c.W.Pos(ws.call.Pos()), "goto label is <script>_<dest>", "goto label prefix is "+ws.argT[0]+", expected the script name parameter")
 					gotoD = append(gotoD, blk)
+				} else if len(ws.argT) == 2 {
+					// a goto to anything but this branch's own destination
+					c.Bad(key+"/goto-elsewhere["+pretty(ws.argT[1])+"]", c.W.Pos(ws.call.Pos()), "the renderer writes a goto to "+pretty(ws.argT[1])+", which is not the destination of this branch ("+pretty(s.dest)+"): control would leave the chunk for a place the lowering did not choose")
 				}
 			case len(ws.argT) == 0 && ws.format == "\treturn\n":
 				termD = append(termD, blk)
